@@ -774,6 +774,10 @@ func genVal(s *Stream, c *ColDef, prof *genProfile) Val {
 		}
 		return Val{Enc: enc, Text: []byte(fmt.Sprintf("%s%02d:%02d:%02d%s", sign, h, mi, se, fracText(usec, c.P1)))}
 	case kJSON:
+		if s.Chance(1, 6) {
+			// a NOT NULL JSON column that got no value: length prefix 0, rendered as the JSON null document
+			return Val{Enc: leN(nil, 0, 4), Text: []byte("'null'")}
+		}
 		doc := genJSONDoc(s, 0)
 		bin := jsonBinary(doc)
 		enc := leN(nil, uint64(len(bin)), 4)
